@@ -9,7 +9,7 @@
      KAll (packages.AlwaysTrue), KGlob m (a non-atom restriction such as cata/*; m = bitmask of the
      key ids it matches), KSimple k (atom "cat/pkg"), KVer k v (atom "=cat/pkg-v").
    Python's set->tuple order of global entries is supplied by the harness (lists here are tuples). *)
-From Coq Require Import List NArith Bool.
+From Coq Require Import List NArith ZArith Bool.
 Import ListNotations.
 From Verif Require Import Base.Val.
 Open Scope N_scope.
@@ -247,11 +247,11 @@ Definition refused : val := VErr [114; 101; 102; 117; 115; 101; 100].   (* "refu
 Definition enc_set (s : list N) : val := VL (map (fun f => VB (mem f s)) universe).
 Definition enc_nl (l : list N) : val := VL (map (fun x => VZ (Z.of_N x)) l).
 
-(* stream "hist": a program and pre_defaults -> rendered sets for the six packages *)
-Definition run_hist (i : prog * list N) : val :=
+(* stream "hist": a program and some pre_defaults -> rendered sets for the six packages *)
+Definition run_hist (i : prog * list (list N)) : val :=
   match run (fst i) with
   | None => refused
-  | Some d => VL (map (fun p => enc_set (render d p (snd i))) pkgs)
+  | Some d => VL (map (fun pre => VL (map (fun p => enc_set (render d p pre)) pkgs)) (snd i))
   end.
 (* stream "build": _build_cp_atom_payload(seq, restrict) -> the exact chunk tuple *)
 Definition enc_scope (s : scope) : val :=
